@@ -284,15 +284,25 @@ LoadSetQuick ==
     \cup {GenValue(3, [f \in B!FieldSet(Ty) |-> TRUE], <<2, 1>>)}   \* same real part, other parts
     \cup {GenValue(4, [f \in B!FieldSet(Ty) |-> TRUE], IF Mant >= 53 THEN <<-1, 2>> ELSE <<-1, 1>>)}
     \cup {GenValue(2, [f \in B!FieldSet(Ty) |-> TRUE], r) : r \in {<<0, 1>>, <<1, 1>>, <<4, 1>>}}
+\* nested types: a value whose derivative parts have a ZERO real part and non-zero inner parts (first and second
+\* derivative of the divisor vanish at the point, the third does not): the predicates is_zero / is_one of a dual number
+\* look at the real part only, so a part like 0 + 2 eps "is zero" -- shortcuts guarded by them must not drop it
+GenValueZ(k, re0) ==
+    [f \in {"re"} \cup B!FieldSet(Ty) |->
+        IF f = "re" THEN Lift(re0, k + 1)
+        ELSE IF B!IsVec(Ty)
+             THEN LET d == B!PartDims(Ty, f) IN B!Some(B!Mat(d[1], d[2], LAMBDA i, j : Lift(Q0, k + 7 * FieldIdx(f) + 3 * i + j)))
+             ELSE Lift(Q0, k + 2 * FieldIdx(f))]
 \* nested types: integers only (the degree of a nested operation leaves room for two bits per operand scalar)
 LoadSetNested ==
     {GenValue(1, p, <<2, 1>>) : p \in PresSet}
     \cup {GenValue(3, [f \in B!FieldSet(Ty) |-> TRUE], <<2, 1>>)}
     \cup {GenValue(4, [f \in B!FieldSet(Ty) |-> TRUE], <<-1, 1>>)}
     \cup {GenValue(2, [f \in B!FieldSet(Ty) |-> TRUE], r) : r \in {<<0, 1>>, <<1, 1>>, <<4, 1>>}}
+    \cup {GenValueZ(1, <<2, 1>>), GenValueZ(2, <<-1, 1>>)}
 LoadSetNestedQuick ==
     {GenValue(1, [f \in B!FieldSet(Ty) |-> TRUE], <<2, 1>>), GenValue(4, [f \in B!FieldSet(Ty) |-> TRUE], <<-1, 1>>),
-     GenValue(2, [f \in B!FieldSet(Ty) |-> TRUE], <<4, 1>>)}
+     GenValue(2, [f \in B!FieldSet(Ty) |-> TRUE], <<4, 1>>), GenValueZ(1, <<2, 1>>)}
 LoadSetGeneric ==
     {GenValue(1, p, <<2, 1>>) : p \in PresSet}
     \cup {GenValue(3, [f \in B!FieldSet(Ty) |-> TRUE], <<2, 1>>)}
